@@ -393,7 +393,8 @@ def plan_C19(ctx):
 MODEL_RULE = ("A: every history of <= MaxLen calls of AddBasicElement / SetBasicText (incl. same-size replacements with other keys) / "
               "SetStructureData / ResetDataFor / SetExpressionFor / Erase / Emplace / Calculate / RecalculateAll from a start model "
               "(X1 = {1,2}, D1 := X1, D2 := D1; 'struct' preset adds S1 : B(X1*X1) with data and projections of it; 'late' preset starts with "
-              "D1 := X2 while the base set X2 does not exist and inserts / erases base sets during the history), generated by TLC from "
+              "D1 := X2 while the base set X2 does not exist and inserts / erases base sets during the history; 'func' preset has a term-function "
+              "F1 whose body is edited while terms calling it directly and through another term are calculated), generated by TLC from "
               "Model.tla with the predicted content and Fresh (what recalculating everything would show); replayed on a real RSModel. "
               "non-trivial = history of >= 2 calls. ")
 
@@ -401,7 +402,7 @@ MODEL_RULE = ("A: every history of <= MaxLen calls of AddBasicElement / SetBasic
 def model_stage(ctx, props):
     b = vcore.build()
     h = hbin(b, "h_model")
-    for pr in ("", "s", "l"):
+    for pr in ("", "s", "l", "f"):
         cfg = "Gen_Model_%s%s.cfg" % ("q" if ctx.quick else "t", pr)
         ctx.constants[cfg] = open(os.path.join(vcore.TLA, cfg)).read().split("SPECIFICATION")[0].split()
         ctx.replay("Gen_Model.tla", cfg, h, ["--props", ",".join(props)], tag=cfg[:-4], timeout=3400, xss="64m", xmx="12g")
